@@ -92,6 +92,8 @@ type Path struct {
 	termHeight                            int
 	selects                               []selectNote
 	batch                                 []pendingObl
+	elfFile, elfOpenFails                 value
+	blobs                                 map[*value]blob
 	allConds                              []*smt.Term
 	nSkipped                              int
 }
@@ -577,4 +579,9 @@ func scriptString(s []int) string {
 		fmt.Fprintf(&sb, "%d.", d)
 	}
 	return sb.String()
+}
+
+type blob struct {
+	data value
+	fail value
 }
